@@ -121,3 +121,12 @@ add("C14",
     "DESIGN.md 5/C14", COMMON_TRUST + " Linalg.* run-time monitored (A4); A9 fixes the refusal branch for non-zero error forms.",
     "contracts on the real functions; real code on symbolic control points over concrete knot vectors, branch fixed by the stated genericity precondition (bounded in shape and history)")
 ENGINE_S += ["C14"]
+
+add("C18",
+    "Generator closed forms (clamped, requested degree / npts / number class, equal spacing, interval exactly [0,1], every adversarial randint draw) enumerated "
+    "up to a bound (bounded, engine B); shift / scale / normalize with symbolic knot values: affine image of every knot, degree / npts / multiplicities kept, "
+    "normalize onto exactly [0,1]; invariance N_i(sU+a, su+a) == N_i(U,u) and of curves by running the real evaluation code on both symbolic vectors; float clause "
+    "'umax == 1.0 exactly' on doubles with d*(1/d) != 1 (concrete IEEE). " + S_NOTE,
+    "DESIGN.md 5/C18", COMMON_TRUST,
+    "contracts on the real functions; exhaustive enumeration up to a bound for the generators, real code on symbolic knots for the affine maps and the invariance (bounded)")
+ENGINE_S += ["C18"]
